@@ -450,7 +450,7 @@ func (pc *c12Pipe) yaml(outs []int) string {
 	}
 	sb.WriteString("]\n    extractions:\n")
 	pc.progYAML(pc.Extract, "      ", &sb)
-	sb.WriteString("orchestration:\n  type: byKeySet\n  keys: [app]\n  tag: t.$app\nmetricKeys: [host]\n")
+	sb.WriteString("orchestration:\n  type: byKeySet\n  keys: [app]\n  tag: t.$app\nmetricKeys: [pid]\n")
 	if len(pc.Transforms) == 0 {
 		sb.WriteString("transformations: []\n")
 	} else {
